@@ -1,3 +1,5 @@
-(call) @local.scope
+((call) @local.scope (#set! local.scope-inherits false))
+(embed) @local.scope
 (let name: (word) @local.definition value: (_) @local.definition-value)
 (word) @local.reference
+(call fn: (word) @local.definition)
